@@ -1,22 +1,29 @@
 #!/usr/bin/env python3
-"""Sensitivity helper: apply a textual mutation to /repo, run checks briefly, restore.
-usage: try_mutant.py <relpath> <old> <new> <PROP>[,<PROP>...] [budget]
-Never leaves /repo modified (git checkout -- . at the end)."""
+"""Sensitivity helper: apply a textual mutation in a scratch worktree of /repo (never in /repo itself), run
+checks against it briefly (VERIF_REPO / VERIF_OUT), remove the worktree.
+usage: try_mutant.py <relpath> <old> <new> <PROP>[,<PROP>...] [budget]"""
+import os
+import shutil
 import subprocess
 import sys
+import tempfile
 
 rel, old, new, props = sys.argv[1:5]
 budget = sys.argv[5] if len(sys.argv) > 5 else '8'
-p = '/repo/' + rel
-s = open(p).read()
-if old not in s:
-    print('PATTERN NOT FOUND')
-    sys.exit(3)
-open(p, 'w').write(s.replace(old, new, 1))
+wt = tempfile.mkdtemp(prefix='mut_', dir='/tmp')
+os.rmdir(wt)
+subprocess.check_call(['git', '-C', '/repo', 'worktree', 'add', '-q', '--detach', wt, 'HEAD'])
 try:
+    p = os.path.join(wt, rel)
+    s = open(p).read()
+    if old not in s:
+        print('PATTERN NOT FOUND')
+        sys.exit(3)
+    open(p, 'w').write(s.replace(old, new, 1))
     for prop in props.split(','):
+        env = dict(os.environ, VERIF_REPO=wt, VERIF_OUT=wt + '_out')
         r = subprocess.run(['/venv/bin/python', '-B', '-m', 'verif', 'check', prop, '--tier', 'quick', '--budget', budget],
-                           cwd='/verif', capture_output=True, text=True)
+                           cwd='/verif', capture_output=True, text=True, env=env)
         lines = r.stdout.splitlines()
         v = [l for l in lines if l.startswith('violation')]
         print('%s: rc=%d, %d violation classes' % (prop, r.returncode, len(v)))
@@ -25,5 +32,6 @@ try:
         if r.returncode == 2:
             print('\n'.join(l for l in lines if 'HARNESS' in l)[:1500])
 finally:
-    subprocess.run(['git', '-C', '/repo', 'checkout', '--', '.'])
-    subprocess.run('find /verif/replays -name "*.json" -delete', shell=True)
+    subprocess.run(['git', '-C', '/repo', 'worktree', 'remove', '--force', wt], capture_output=True)
+    shutil.rmtree(wt, ignore_errors=True)
+    shutil.rmtree(wt + '_out', ignore_errors=True)
